@@ -210,7 +210,11 @@ func execPromConc(sessions [][]promStep) {
 		events = append(events, M{"sid": i, "k": "stop"})
 	}
 	events = append(events, M{"sid": -1, "k": "checkpoint", "metrics": gather(reg)})
-	emit(M{"op": "prom", "mode": "conc", "events": events})
+	line := M{"op": "prom", "mode": "conc", "events": events}
+	if raceSeen() {
+		line["race"] = true // the shared counters were touched without mutual exclusion (harness built with -race)
+	}
+	emit(line)
 }
 
 func init() {
